@@ -233,6 +233,9 @@ func main() {
 
 	// Proof.Marshal / Unmarshal
 	run.Units("proof", run.Pick(16, 256), 0, func(unit int64, r *rand.Rand) {
+		// reuse: one receiver per unit that keeps whatever the previous Unmarshal left in it - "stores the result in
+		// the Proof" holds whatever the receiver held before (a decoder that is handed a used value)
+		var reuse witness.Proof
 		for i := 0; i < 500; i++ {
 			n := r.IntN(65)
 			if i%10 == 0 {
@@ -253,6 +256,14 @@ func main() {
 			run.Distinct("nontrivial", fmt.Sprintf("proof/%d", n))
 			if err != nil || !eqHashes(p, q) {
 				run.Violate(fmt.Sprintf("proof_roundtrip;empty=%v", len(p) == 0), fmt.Sprintf("Proof of %d hashes: Marshal then Unmarshal gave err=%v and %d hashes", len(p), err, len(q)), unit, map[string]any{"text": txt})
+			}
+			before := len(reuse)
+			err = reuse.Unmarshal([]byte(txt))
+			run.Count("evaluations")
+			run.Count("proof_roundtrip_reused_receiver")
+			run.Distinct("nontrivial", fmt.Sprintf("proof-reused/%v->%v", before == 0, n == 0))
+			if err != nil || !eqHashes(p, reuse) {
+				run.Violate(fmt.Sprintf("proof_roundtrip_reused_receiver;empty=%v;receiver_was_empty=%v", len(p) == 0, before == 0), fmt.Sprintf("Proof of %d hashes unmarshalled into a receiver that held %d hashes from the previous call: err=%v and %d hashes read back", len(p), before, err, len(reuse)), unit, map[string]any{"text": txt})
 			}
 		}
 	})
